@@ -74,7 +74,12 @@ type AbsBlk struct {
 	Par int      `json:"par"`
 	Evs []string `json:"evs"`
 	Exp int      `json:"exp"` // C16: expiration block of the registration in this block (0 = none)
+	Len int      `json:"len"` // > 1: a run of Len eventless blocks (numbers Num-Len+1 .. Num); the record names the last
 }
+
+// runBig: block j places below the last block of run record i has the abstract id i + j*runBig
+// (ChainSync.tla Big).
+const runBig = 1000
 
 const (
 	FlMulti     = "multi"
@@ -135,7 +140,7 @@ func NewWorld(fl string, cfg Cfg, stretch int, seed int64) (*World, error) {
 	}
 	w.Pool = pool
 	// root = abstract block 1, number 0
-	w.Blk = []AbsBlk{{Num: 0, Par: -1, Evs: []string{}}}
+	w.Blk = []AbsBlk{{Num: 0, Par: -1, Evs: []string{}, Len: 1}}
 	w.Eth.AddRoot(realID(1, 0), 0)
 	if w.S > 1 {
 		w.Eth.AddFiller(realID(1, 0), "f1_", w.S-1)
@@ -202,6 +207,9 @@ func realID(abs, j int) string { return fmt.Sprintf("b%d_%d", abs, j) }
 
 // headID is the real block whose header stands for abstract block b (the last of its S blocks).
 func (w *World) headID(b int) string {
+	if blk := w.tree()[b-1]; blk.Len > 1 {
+		return fmt.Sprintf("b%d_r%d", b, blk.Num)
+	}
 	if w.S == 1 {
 		return realID(b, 0)
 	}
@@ -218,6 +226,12 @@ func (w *World) absOfReal(b *fakeeth.Block) (int, bool) {
 		return 1, int(b.Num) == w.S-1
 	}
 	var a, j int
+	if strings.Contains(id, "_r") { // inside a run: "b<record>_r<block number>"
+		if _, err := fmt.Sscanf(id, "b%d_r%d", &a, &j); err != nil || a < 1 || a > len(w.tree()) {
+			return -2, false
+		}
+		return a + (w.tree()[a-1].Num-j)*runBig, true
+	}
 	if _, err := fmt.Sscanf(id, "b%d_%d", &a, &j); err != nil {
 		return -2, false
 	}
@@ -309,7 +323,7 @@ func (w *World) Mine(p int, ev string) int {
 	if ev != "" {
 		evs = []string{ev}
 	}
-	w.Blk = append(w.Blk, AbsBlk{Num: w.Blk[p-1].Num + 1, Par: p, Evs: evs})
+	w.Blk = append(w.Blk, AbsBlk{Num: w.Blk[p-1].Num + 1, Par: p, Evs: evs, Len: 1})
 	parent := w.headID(p)
 	off := 0
 	if w.S > 1 {
@@ -328,6 +342,25 @@ func (w *World) Mine(p int, ev string) int {
 	}
 	w.Switch(id)
 	return id
+}
+
+// Extend adds a run of k eventless blocks on top of the head as ONE abstract record and makes its
+// last block the head.
+func (w *World) Extend(k int) int {
+	id := len(w.Blk) + 1
+	parent := w.headID(w.Canon)
+	num := w.Blk[w.Canon-1].Num + k
+	w.Blk = append(w.Blk, AbsBlk{Num: num, Par: w.Canon, Evs: []string{}, Len: k})
+	w.Eth.AddFiller(parent, fmt.Sprintf("b%d_r", id), k)
+	w.Switch(id)
+	return id
+}
+
+func (w *World) tree() []AbsBlk {
+	if w.leader != nil {
+		return w.leader.Blk
+	}
+	return w.Blk
 }
 
 // Switch moves the canonical head to abstract block b.
